@@ -381,3 +381,59 @@ class AddCoreLevel3(_AddCoreBase):
         now = ite(3 == 3 or (not already and g_child_full), before | (1 << sub), before)
         hand_up = now == 0xffff and 3 != 0
         return result == hand_up and select(self_post.locally_selected, p) == ite(hand_up, 0, now)
+
+
+# ---- RegionCoreTree.get_regions_and_coremasks: the word of the node's own block, and one core of the grouping loop (fragments) ------
+def _cm_get(E, obj, args, kwargs, st, node):
+    s = st.copy()
+    s.trace = ListV(s.trace.items + (("mask_so_far", args[0]),))
+    return [(s, st.env["g_mask_so_far"], None)]
+
+
+def _cm_set(E, obj, args, kwargs, st, node):
+    s = st.copy()
+    s.trace = ListV(s.trace.items + (("mask_now", args[0], args[1]),))
+    return [(s, NONE, None)]
+
+
+@contract("rig/machine_control/regions.py::RegionCoreTree.get_regions_and_coremasks@forbody:0")
+class GroupCoresBySelection:
+    """one core of the grouping loop: a core with a non-empty selection of sub-blocks adds exactly its own bit to the core mask
+    kept for exactly that selection (the mask of a selection not seen before starts empty: a defaultdict); a core that selects
+    nothing contributes to nothing - for EVERY core number 0..17, core 0 included"""
+    properties = ("C12",)
+    bv = 40
+    params = dict(core=TBV(40, 0, 17), subregions=HALF, subregions_cores=TRec("CoreMasks"), g_mask_so_far=TBV(40, 0, 0x3ffff))
+    fragment_result = ()
+    fragment_head = "for core, subregions in enumerate(self.locally_selected):"
+    externals = {"CoreMasks.__getitem__": _cm_get, "CoreMasks.__setitem__": _cm_set}
+    assumptions = ["the defaultdict of core masks is opaque: reading the mask kept for a selection (0 if none yet) and storing it are recorded"]
+
+    def native(core):
+        raise __import__("pyvc.replay", fromlist=["OutsideHarness"]).OutsideHarness()
+
+    def ensures_a_selecting_core_adds_its_own_bit_to_the_mask_of_its_selection(core, subregions, g_mask_so_far, _trace):
+        return (implies(subregions == 0, len(_trace) == 0)
+                and implies(subregions != 0, len(_trace) == 2 and _trace[0] == ("mask_so_far", subregions)
+                            and _trace[1] == ("mask_now", subregions, g_mask_so_far | (1 << core))))
+
+
+@contract("rig/machine_control/regions.py::RegionCoreTree.get_regions_and_coremasks@seq:0:1")
+class NodeRegionCode:
+    """the word of the node's own block: base x in bits 31:24, base y in bits 23:16 with the level in bits 17:16 (block bases are
+    multiples of 4 at every level that has a word), no sub-block selected yet"""
+    properties = ("C12",)
+    bv = 40
+    params = dict(self=TRec("RegionCoreTree", base_x=COORD, base_y=COORD, level=LEVEL))
+    fragment_result = ("region_code",)
+    fragment_head = "region_code = ..."
+
+    def native(self):
+        raise __import__("pyvc.replay", fromlist=["OutsideHarness"]).OutsideHarness()
+
+    def requires(self):
+        return (self.base_y & 3) == 0
+
+    def ensures_names_the_block_and_its_level(self, result):
+        w = result[0]
+        return ((w >> 24) == self.base_x and ((w >> 16) & 0xfc) == self.base_y and ((w >> 16) & 3) == self.level and (w & 0xffff) == 0)
